@@ -1397,6 +1397,9 @@ def run_H(pid, tier, seed):
             if reg_[1] != "closed":
                 # the real constructor accepted a table whose setup nodes read something else than setup nodes
                 failures.append(Failure("proof", "setup-region-hypothesis-fails-on-an-accepted-table", scen, dict(model=reg_), slice_="H"))
+        sel_ = ans.get(hid, {}).get(-2)
+        if sel_ is not None and sel_[1] != "closed":
+            failures.append(Failure("proof", "closed-selection-hypothesis-fails-on-a-computed-selection", scen, dict(model=sel_), slice_="H"))
         for rec in records:
             if len(failures) > nfail0:
                 break   # the rest of this history runs on a state the first failure already tainted
@@ -1624,7 +1627,8 @@ PROPS["C10"]["run"] = run_V_and_composed_flags
 
 reg("C15", ["Props.C15_no_state_but_setup", "Props.C15_next_call_depends_only_on_setup_state", "Props.C15_failed_operation_is_a_noop", "VM.applyOp_res_nonsetup", "Props.C01_core",
             "Props.C15_executor_single_use", "Props.C15_executor_run_is_complete", "Props.C15_executor_no_state_but_setup",
-            "Props.C15_call_after_history_is_fresh", "Props.C11_setup_value_independent_of_arguments"], run_H_and_composeprobe, ASSUME_H)
+            "Props.C15_call_after_history_is_fresh", "Props.C11_setup_value_independent_of_arguments",
+            "Props.C15_call_after_any_history", "Props.C15_closedSel_decidable", "Props.C11_sub_selection_same_setup_values"], run_H_and_composeprobe, ASSUME_H)
 reg("C18", ["Props.C18_restart_same", "Props.C18_restart_runs_only_uncached", "VM.denote_seeded", "Props.C18_cache_roundtrip"], run_H, ASSUME_H)
 
 
